@@ -15,12 +15,17 @@ VARIABLES par, perm, done, DB
 Init == par \in [1..NN -> SUBSET ({Name(j) : j \in 1..NN} \cup {Z})] /\ (\A i \in 1..NN : par[i] \in ParentChoices(i))
         /\ perm = <<>> /\ done = FALSE /\ DB = EmptyDB
 Lines(pr, pm) == [k \in 1..NN |-> MkF(Name(pm[k]), TypeOf(pm[k]), SetToSortedSeq(pr[pm[k]]), <<>>)]
-DBof(pr, pm) == Create(Lines(pr, pm), <<>>, DefaultDialect, DefaultCfg).db
+CreateOf(pr, pm) == Create(Lines(pr, pm), <<>>, DefaultDialect, DefaultCfg)
+DBof(pr, pm) == CreateOf(pr, pm).db
+\* an update with one unrelated feature must leave every relation as it was (the closure is recomputed from level-1 rows only)
+Unrelated == <<MkF(<<117>>, T_gene, <<>>, <<>>)>>
+AfterUpdate(pr, pm) == LET c == CreateOf(pr, pm) IN Update(c.db, c.ctr, Unrelated, DefaultCfg).db
 AllNames == {Name(j) : j \in 1..NN} \cup {Z}
 Rec(pr, pm, db) ==
   [lines |-> [k \in 1..NN |-> [id |-> Name(pm[k]), ftype |-> TypeOf(pm[k]), parents |-> SetToSortedSeq(pr[pm[k]]),
                                   text |-> LineText(Lines(pr, pm)[k], DefaultDialect)]],
    rels |-> db.rels,
+   relsAfterUpdate |-> AfterUpdate(pr, pm).rels,
    kidsExon |-> {[x |-> x, ids |-> {c \in Children(db, x, 0) : Get(db, c).ftype = T_exon}] : x \in AllNames},
    kids |-> {[x |-> x, l |-> l, ids |-> Children(db, x, l)] : x \in AllNames, l \in 0..2},
    pars |-> {[x |-> x, l |-> l, ids |-> Parents(db, x, l)] : x \in AllNames, l \in 0..2}]
@@ -29,6 +34,7 @@ Next == /\ ~done /\ done' = TRUE /\ par' = par /\ perm' \in PermsOf(NN)
         /\ PrintT(ToJson(Rec(par, perm', DB')))
 InvRels    == done => DB.rels = Rel1_Decl(DB) \cup Rel2_Decl(DB)
 InvInverse == done => \A x \in Ids(DB), y \in Ids(DB), l \in 0..2 : (y \in Children(DB, x, l)) <=> (x \in Parents(DB, y, l))
+InvUpdateKeeps == done => AfterUpdate(par, perm).rels = DB.rels
 InvNoSelf  == done => \A x \in AllNames : x \notin Children(DB, x, 0) /\ x \notin Parents(DB, x, 0)
 InvStored  == done => \A x \in AllNames : Children(DB, x, 0) \subseteq Ids(DB) /\ Z \notin Ids(DB) /\ Len(DB.feats) = NN
 \* children(x, 1) are exactly the stored features naming x in Parent; children(x, 2) the level-1 children of those
